@@ -290,6 +290,9 @@ pub fn flavour_exe_of(path: &std::path::Path) -> Option<PathBuf> {
     std::env::var(var).ok().map(PathBuf::from).filter(|p| p.exists())
 }
 
+/// number of violation reports after which no further batches are started
+const FLOOD: usize = 400;
+
 pub fn crash_sig(how: &str, progress: &str) -> Value {
     // the progress tag's first token names the phase (e.g. "run", "compile", "op:insert")
     let phase = progress.split_whitespace().next().unwrap_or("");
@@ -369,6 +372,11 @@ pub fn run_check(check: &'static dyn Check, tier: Tier, seed: u64, jobs: usize) 
         handles.push(std::thread::spawn(move || loop {
             let b = next.fetch_add(1, Ordering::Relaxed);
             if b >= nbatches {
+                break;
+            }
+            // a tree that fails everywhere has been decided long before the last case: stop
+            // handing out batches once several hundred violation reports are in
+            if agg.lock().unwrap().violations.len() >= FLOOD {
                 break;
             }
             let mut from = b * batch;
@@ -451,6 +459,7 @@ pub fn run_check(check: &'static dyn Check, tier: Tier, seed: u64, jobs: usize) 
     let _ = wd.join();
 
     let mut agg = std::mem::take(&mut *agg.lock().unwrap());
+    let total_reports = agg.violations.len();
     agg.violations.sort_by(|a, b| {
         (a.1.sig.to_string(), a.0).cmp(&(b.1.sig.to_string(), b.0))
     });
@@ -553,8 +562,13 @@ pub fn run_check(check: &'static dyn Check, tier: Tier, seed: u64, jobs: usize) 
             }
         }
     }
+    let flooded = total_reports >= FLOOD;
     if agg.cases_done < n {
-        harness_errors.push(format!("only {} of {n} cases completed", agg.cases_done));
+        if flooded {
+            println!("NOTE: stopped after {} of {n} cases: several hundred violation reports were in", agg.cases_done);
+        } else {
+            harness_errors.push(format!("only {} of {n} cases completed", agg.cases_done));
+        }
     }
     for p in &probe_fail {
         if tier == Tier::Thorough {
